@@ -166,6 +166,92 @@ def _norm_fn(s):
     return re.sub(r"f\d+[a-z0-9]*", "F", s)[:50]
 
 
+ENUM_MEMBERS = [("LOW", "2"), ("MID", "LOW - -1 + 2"), ("SCALED", "LOW * -3 / 2"), ("AFTER", None), ("BIG", "(LOW + 3) * (MID - 1)"),
+                ("NEG", "-MID"), ("CHAIN", "BIG - MID - LOW"), ("DIV", "100 / 5 / 2"), ("MIXED", "2 + 3 * 4 - 6 / 2"),
+                ("SUBDIV", "BIG - 12 / 4 * 2"), ("LAST", None)]
+
+
+def run_enum_args(case):
+    """Enumeration-typed arguments and results (docs/types.rst enumerations; enum.yaml): the value a C caller passes under the
+    generated constant's name is the value the C++ callee receives under the original enumerator's name, and back."""
+    import re
+    from .. import shroudrun
+    ns, scoped = case.get("ns"), case.get("scoped")
+    res = {"violations": [], "stats": {}, "name": "en-%s-%s" % (ns or "global", "scoped" if scoped else "plain")}
+    body = ", ".join(n if e is None else "%s = %s" % (n, e) for n, e in ENUM_MEMBERS)
+    kw = "enum class" if scoped else "enum"
+    inner = [{"decl": "%s Level { %s };" % (kw, body)}, {"decl": "int take_level(Level v)"}, {"decl": "Level pick_level(int i)"}]
+    decls = [{"decl": "namespace %s" % ns, "declarations": inner}] if ns else inner
+    y = {"library": "en", "cxx_header": "en.hpp", "language": "c++", "format": {"C_prefix": "EN_"},
+         "options": {"wrap_c": True, "wrap_fortran": False, "wrap_python": False, "wrap_lua": False}, "declarations": decls}
+    sp = {"name": res["name"], "files": {"work/en.yaml": workloads.dump_yaml(y)}, "dirs": ["out"],
+          "argv": ["--outdir", "out", "--logdir", "out", "work/en.yaml"], "monitors": [], "keep": True}
+    rr = shroudrun.run(sp)
+    cwd = rr.get("cwd")
+    try:
+        if rr.get("exc") or rr.get("exit") != 0:
+            res["violations"].append({"mech": "shroud-rejects-admitted-library:enum-arguments", "detail": engine.reject_mech(rr)[1][:500]})
+            return res
+        out = os.path.join(cwd, "out")
+        q = (ns + "::") if ns else ""
+        qe = q + ("Level::" if scoped else "")
+        names = [n for n, _ in ENUM_MEMBERS]
+        open(os.path.join(out, "en.hpp"), "w").write(
+            "#ifndef EN_HPP\n#define EN_HPP\n%s%s Level { %s };\nint take_level(Level v);\nLevel pick_level(int i);\n%s#endif\n" % (
+                ("namespace %s {\n" % ns) if ns else "", kw, body, "}\n" if ns else ""))
+        open(os.path.join(out, "en_impl.cpp"), "w").write(
+            '#include "en.hpp"\n%sstatic int vf_last = 0;\nint take_level(Level v) { vf_last = (int)v; return 1000 + (int)v; }\n'
+            'Level pick_level(int i) { static const Level all[] = { %s }; return all[i]; }\n%s' % (
+                ("namespace %s {\n" % ns) if ns else "", ", ".join(("Level::" if scoped else "") + n for n in names), "}\n" if ns else ""))
+        open(os.path.join(out, "ref.cpp"), "w").write(
+            '#include <cstdio>\n#include "en.hpp"\nint main() {\n%s\n%s\nreturn 0; }\n' % (
+                "\n".join('  std::printf("%s const=%%d take=%%d\\n", (int)%s%s, %stake_level(%s%s));' % (n, qe, n, q, qe, n) for n in names),
+                "\n".join('  std::printf("pick %d -> %%d\\n", (int)%spick_level(%d));' % (i, q, i) for i in range(len(names)))))
+        hdr = "".join(open(os.path.join(out, f)).read() for f in sorted(os.listdir(out)) if f.startswith("wrap") and f.endswith(".h"))
+        m = re.search(r"enum\s+(\w*Level)\s*\{(.*?)\}", hdr, re.S)
+        take = re.search(r"(\w*take_level)\s*\(", hdr)
+        pick = re.search(r"(\w*pick_level)\s*\(", hdr)
+        if not (m and take and pick):
+            res["violations"].append({"mech": "enum-arguments:c-api-incomplete", "detail": "%s: enumeration / take_level / pick_level not declared in the generated headers" % res["name"]})
+            return res
+        cnames = [x.split("=")[0].strip() for x in re.sub(r"/\*.*?\*/|//[^\n]*", "", m.group(2), flags=re.S).split(",") if x.strip()]
+        if len(cnames) != len(names):
+            res["violations"].append({"mech": "enum-arguments:enumerator-count-differs", "detail": "%s: C header has %r" % (res["name"], cnames)})
+            return res
+        heads = [f for f in sorted(os.listdir(out)) if f.startswith("wrap") and f.endswith(".h")]
+        open(os.path.join(out, "drv.c"), "w").write(
+            '#include <stdio.h>\n%s\nint main(void) {\n%s\n%s\nreturn 0; }\n' % (
+                "\n".join('#include "%s"' % h for h in heads),
+                "\n".join('  printf("%s const=%%d take=%%d\\n", (int)%s, %s(%s));' % (n, cn, take.group(1), cn) for n, cn in zip(names, cnames)),
+                "\n".join('  printf("pick %d -> %%d\\n", (int)%s(%d));' % (i, pick.group(1), i) for i in range(len(names)))))
+        cpps = [f for f in sorted(os.listdir(out)) if f.startswith("wrap") and f.endswith(".cpp")]
+        for cmd in (["g++", "-std=c++11", "-g", "-w", "-I.", "ref.cpp", "en_impl.cpp", "-o", "ref"],
+                    ["gcc", "-std=c99", "-g", "-Wall", "-Werror", "-I.", "-c", "drv.c", "-o", "drv.o"],
+                    ["g++", "-std=c++11", "-g", "-w", "-I.", "drv.o", "en_impl.cpp"] + cpps + ["-o", "drv"]):
+            rc, so, se = engine.sh(cmd, out)
+            if rc != 0:
+                if cmd[-1] == "ref":
+                    res["harness_error"] = "enum reference program does not compile: " + se[:300]
+                else:
+                    res["violations"].append({"mech": "enum-arguments:generated-c-api-does-not-build:" + engine.first_error(se)[1], "detail": "%s\n%s" % (res["name"], se[:1500])})
+                return res
+        _, ref_out, _ = engine.sh(["./ref"], out)
+        _, drv_out, _ = engine.sh(["./drv"], out)
+        rl, dl = ref_out.strip().split("\n"), drv_out.strip().split("\n")
+        res["stats"]["enum_value_lines_compared"] = len(rl)
+        res["stats"]["calls"] = 2 * len(names)
+        for a_, b_ in zip(rl, dl):
+            if a_ != b_:
+                res["violations"].append({"mech": "enum-argument-value-differs:%s" % ("constant" if a_.split("take=")[0] != b_.split("take=")[0] else "call"),
+                                          "detail": "%s: C++ caller sees %r, C caller through the generated API sees %r" % (res["name"], a_, b_)})
+        if len(rl) != len(dl):
+            res["violations"].append({"mech": "enum-argument-value-differs:output-length", "detail": "%s: %d vs %d lines" % (res["name"], len(rl), len(dl))})
+        return res
+    finally:
+        if cwd:
+            common.rmtree(cwd)
+
+
 def make_cases(r, thorough, lang="c++", wraps=("c", "fortran"), driver_ok=cdrv.c_callable):
     cases = []
     inst = libs.instances(lang, wraps)
@@ -225,6 +311,18 @@ def main(rec):
                 rec.inconclusive = "harness self-check failed: %s" % v["detail"][:300]
                 continue
             rec.violation(v["mech"], v["detail"], {"lib": c["lib"]["name"]})
+    ecases = [{"ns": ns, "scoped": sc} for ns in (None, "lev") for sc in (False, True)]
+    eres = pool.run_cases("vf.checks.c02", ecases, func="run_enum_args", timeout=600)
+    for c, rr in zip(ecases, eres):
+        if "stats" not in rr:
+            workloads.bad_run(rec, {"name": "enum-arguments"}, rr)
+            continue
+        if rr.get("harness_error"):
+            rec.inconclusive = rr["harness_error"][:300]
+        rec.count("enum_value_lines_compared", rr["stats"].get("enum_value_lines_compared", 0))
+        rec.evaluations += rr["stats"].get("calls", 0)
+        for v in rr["violations"]:
+            rec.violation(v["mech"], v["detail"], dict(c, lib=rr["name"]))
     rec.add_to_set("shapes_covered", shapes)
     rec.distinct_override = rec.counters.get("calls_compared", 0)
     # upstream C drivers
